@@ -119,7 +119,8 @@ package goja
 //@   props C07
 //@   requires r != nil
 //@   loop 1 invariant true [scan]
-//@   loop 2 invariant true [generic-scan]
+//@   loop 2 vars n int64, length int64
+//@   loop 2 invariant n >= 0 && length <= 9007199254740991 [generic-scan]
 
 //@ func (*Runtime).arrayproto_includes bounds
 //@   props C07
